@@ -270,7 +270,8 @@ Section Classes.
         end
     end.
 
-  (* LEGACY_CYCLE_SLASH_TASK: cycle \d[^~\.\:\/\n]+ , "/" , task [^~\:\/\n]+ , optional :sel *)
+  (* LEGACY_CYCLE_SLASH_TASK: cycle \d[^~\.\:\/\n]* , "/" , task [^~\:\/\n]+ , optional :sel
+     (one-character cycles are accepted since /repo commit 26dc1a0) *)
   Definition parse_legacy_slash (s : codes) : option tokens :=
     match split_sel s with
     | None => None
@@ -278,7 +279,7 @@ Section Classes.
         let (cyc, r) := span not_slash body in
         match cyc, r with
         | d :: cr, _ :: tsk =>
-            if is_digit d && nonempty cr && forallb l_cyc cr && nonempty tsk && forallb l_task tsk
+            if is_digit d && forallb l_cyc cr && nonempty tsk && forallb l_task tsk
             then Some (legacy_tokens tsk cyc sel) else None
         | _, _ => None
         end
